@@ -28,6 +28,11 @@ func (m *Limit) Run(ctx ExecutionContext, produce ProduceFn, metaSend MetaSendFn
 		return fmt.Errorf("couldn't evaluate limit expression: %w", err)
 	}
 
+	if limit.Int == 0 {
+		// LIMIT 0: nothing may be produced, so there is no need to run the source at all.
+		return nil
+	}
+
 	limitNodeID := ulid.MustNew(ulid.Now(), rand.Reader).String()
 
 	i := int64(0)
